@@ -172,6 +172,30 @@ def shown_runs(chk, exe):
     return rec
 
 
+def tap_runs(chk, tap):
+    """tap --tx/--txin re-serialises the transaction it was given: versions other than 2 (1, 0, 3, negative), lock times, sequences, several outputs"""
+    import btc, c06
+    from c09 import RecJob
+    rng = chk.rng
+    rec = []
+    ikey = btc.xonly_pubkey(rng.randrange(1, btc.N))[0]
+    base = ["-pbcrt", ikey.hex(), "1", "0x51"]
+    r0 = c06._run_tap(tap, base)
+    dec = btc.bech32_decode(r0["addr"]) if r0["addr"] else None
+    if not dec:
+        ev = {"e": "TapTx", "kind": "no-address", "tx": "00", "result": ""}
+        return [(RecJob("TapTx", ev), [ev])]
+    spk = b"\x51\x20" + bytes(dec[2])
+    for ver in (1, 2, 3, 0, 0x7fffffff, 0x80000000, 0xffffffff, 0xfffffffe):
+        for lock, seq, nout, kind in ((0, 0xffffffff, 1, "script"), (499999999, 0xfffffffe, 2, "key"), (0xffffffff, 0, 3, "script"), (500000000, 0x80000001, 1, "key")):
+            funding = btc.Tx(version=2, vin=[btc.TxIn(bytes(rng.randrange(256) for _ in range(32)), 0, b"", 0xffffffff)], vout=[btc.TxOut(50000, spk)])
+            tx = btc.Tx(version=ver, vin=[btc.TxIn(funding.txid(), 0, b"", seq)], vout=[btc.TxOut(1000 * (k + 1), b"\x00\x14" + bytes([k]) * 20) for k in range(nout)], locktime=lock)
+            r = c06._run_tap(tap, ["--tx=" + tx.hex(), "--txin=" + funding.hex()] + base + (["0"] if kind == "script" else []), ptys=True)
+            ev = {"e": "TapTx", "kind": kind, "tx": tx.hex(), "result": r["tx"]}
+            rec.append((RecJob("TapTx", ev), [ev]))
+    return rec
+
+
 def make_lines(chk):
     return tx_lines(chk) + amt_lines(chk)
 
@@ -181,13 +205,14 @@ def run(chk):
     chk.mc("MC_Amounts", "MC_Amounts.cfg")
     chk.mc("MC_Amounts", "MC_Amounts_neg.cfg", must_hold=False)     # negative configuration: "no amount with an exponent is accepted" is refuted
     chk.exhaustive = False
-    chk.build(mains=("btcdeb",))
+    chk.build(mains=("btcdeb", "tap"))
     lines = make_lines(chk)
     chunk = max(50, len(lines) // 48)
     jobs = [CallJob("calls%d" % i, lines[i:i + chunk]) for i in range(0, len(lines), chunk)]
     divs = chk.validate("Trace_Calls", jobs, "c13")
     chk.evaluations = len(lines); chk.distinct = set(lines); chk.traces = len(lines)
     divs += chk.validate_recorded("Trace_Calls", shown_runs(chk, chk.build_obj.exe("btcdeb")), "c13shown", parallel=4)
+    divs += chk.validate_recorded("Trace_Calls", tap_runs(chk, chk.build_obj.exe("tap")), "c13tap", parallel=4)
     chk.classify(divs)
     return chk.finish(rule=RULE, assumptions=ASSUME, extra={"calls": len(lines)})
 
